@@ -165,6 +165,11 @@ def _nice_float(f):
         return "{}M".format(round(f / 1e6, 8 - pwr))
 
 
+def _qid(name: str) -> str:
+    """Quote a component name so Graphviz reads it as one plain identifier"""
+    return '"{}"'.format(name.replace('"', '\\"'))
+
+
 def _diag(
     sys: System,
     *,
@@ -200,7 +205,7 @@ def _diag(
             conf["label"] = "{}\n{}W".format(
                 name, _nice_float(ldf[ldf.Component == name]["Loss (W)"].to_list()[0])
             )
-        gr.add_node(pydot.Node(name, **conf))
+        gr.add_node(pydot.Node(_qid(name), **conf))
 
     # heat diagram operations
     ldf = None
@@ -241,7 +246,7 @@ def _diag(
     p = dict(zip(sys._g.attrs["nodes"].values(), sys._g.attrs["nodes"].keys()))
     for e in iter(sys._g.edge_indices()):
         ep = sys._g.get_edge_endpoints_by_index(e)
-        graph.add_edge(pydot.Edge(p[ep[0]], p[ep[1]], **bd_conf["edge"]))
+        graph.add_edge(pydot.Edge(_qid(p[ep[0]]), _qid(p[ep[1]]), **bd_conf["edge"]))
     # output image
     if fname == None:
         img = Image.open(io.BytesIO(graph.create_png(prog="dot")))
